@@ -1,6 +1,7 @@
 """C07 — grid cell numbers, rows/columns and coordinates are mutually consistent.
 
-Model: lean/HydroVerif/Model/C07.lean; lemmas: Lemmas/C07Grid.lean, Lemmas/C07Coord.lean;
+Models: lean/HydroVerif/Model/C07.lean, Model/C07Kernel.lean (c_coord2cell as written now, request-level wrappers);
+lemmas: Lemmas/C07Grid.lean, Lemmas/C07Coord.lean, Lemmas/C07Kernel.lean;
 theorems: lean/HydroVerif/Props/C07.lean.
 Correspondence (bit-exact, Float instance of the model vs the real code through the Python API on the
 freshly built extension): `Grid.cell2rowcol`, `Grid.neighbours`, `Grid.cell2coord`, `Grid.coord2cell`,
@@ -24,11 +25,21 @@ scalars, each element checked. State histories (40% of the geometries): the grid
 geometry, optionally used and/or cloned, and 1..5 of the public attributes xllcorner, yllcorner, cellsize, nrows,
 ncols are re-assigned (python or numpy scalars) to reach the geometry under test; model, oracle and a bit-for-bit
 cross-check against freshly constructed grids (constructor and from_dict(to_dict)) all refer to the NEW geometry.
+Call histories on ONE grid object (500 / 5000 per run,
+grids 1x1 .. 6x6): 2..8 steps of call -> (fill the returned array in place | overwrite the numpy input array in place
+with other content of the same length | re-assign attributes, equal-size re-assignments included: transpose, other
+factorisation of ncells, origin shifted by whole cells | other arguments of the same length | clone / deepcopy /
+pickle round trip) -> the same call again or another one, for every entry point (cell2rowcol, cell2coord,
+coord2cell, neighbours, xvalues/yvalues/xlim/ylim); every answer is compared with the model and the oracle for
+the geometry and argument content of that moment, and every array returned earlier must keep its value. Numbers
+beyond int64 must be refused or flagged. The robustness theorems' hypothesis (double quotient within 1e-9 cell
+sizes of the exact one) is measured on every constrained point.
 A case is non-trivial when it is a valid cell, or a point the property
 constrains (safely inside a footprint or safely outside the extent).
 """
 import json
 import math
+import warnings
 from fractions import Fraction as F
 
 from . import common as C
@@ -320,34 +331,39 @@ def build_grid(gd):
 
 
 # ---------------------------------------------------------------------------------------------
-def run_geometry(ctx, st, nrows, ncols, xll, yll, csz, cells, invalid, pts, origin="gen", history=None, rng=None,
-                 requests=()):
-    """calls the real code, queues the model requests, runs the oracle"""
-    import numpy as np
-    from hydrodiy.gis.grid import Grid
-    gd = {"nrows": nrows, "ncols": ncols, "xll": xll, "yll": yll, "csz": csz}
-    if history:
-        gd["history"] = history
-    g = build_grid(gd)
-    hb = "history/" if history else ""
-    ex = Exact(nrows, ncols, xll, yll, csz)
-    gt = geom_tok(nrows, ncols, xll, yll, csz)
-    gq = geom_tok_q(nrows, ncols, xll, yll, csz)
-    n = nrows * ncols
-    allcells = list(cells) + list(invalid)
+class Checker:
+    """every call into the real code goes through here: it issues the call on grid `g`, queues the same request
+    for the model with the geometry `gd` the grid has NOW, and runs the exact oracle on every element"""
 
-    # ---- cell2rowcol: one request (a list, or a bare number when scalar=True)
-    def check_rowcol(req, tag="base", scalar=False):
-        rc = g.cell2rowcol(req[0] if scalar else req)
-        rows = rc.tolist()
-        case = {"geom": gd, "fn": "cell2rowcol", "request": tag}
+    def __init__(self, ctx, st, g, gd, prefix="", extra=None):
+        self.ctx, self.st, self.g, self.gd = ctx, st, g, gd
+        self.nrows, self.ncols = gd["nrows"], gd["ncols"]
+        self.xll, self.yll, self.csz = gd["xll"], gd["yll"], gd["csz"]
+        self.n = self.nrows * self.ncols
+        self.ex = Exact(self.nrows, self.ncols, self.xll, self.yll, self.csz)
+        self.gt = geom_tok(self.nrows, self.ncols, self.xll, self.yll, self.csz)
+        self.gq = geom_tok_q(self.nrows, self.ncols, self.xll, self.yll, self.csz)
+        self.hb = prefix
+        self.extra = extra or {}
+        self.centre_ok = {}   # cell -> (x, y) already verified against the exact centre
+        self.point_ok = {}    # (x, y) -> exact classification, done once per point
+
+    def case(self, fn, tag):
+        return {"geom": self.gd, "fn": fn, "request": tag, **self.extra}
+
+    # ---- cell2rowcol: `req` is the list of cell numbers; `arg` what is handed to the API (default: the list)
+    def rowcol(self, req, tag="base", scalar=False, arg=None):
+        ctx, n, ncols = self.ctx, self.n, self.ncols
+        rc = self.g.cell2rowcol(req[0] if scalar else (req if arg is None else arg))
+        case = self.case("cell2rowcol", tag)
         if rc.shape != (len(req), 2):
             ctx.finding("cell2rowcol/shape", "cell2rowcol does not return one (row, col) per requested cell", {**case, "shape": list(rc.shape)})
             return rc
-        st.add(f"rowcol {nrows} {ncols} {C.ilist(req)}", pairs_tok(rows, str), case)
+        rows = rc.tolist()
+        self.st.add(f"rowcol {self.nrows} {ncols} {C.ilist(req)}", pairs_tok(rows, str), case)
         for c, (r, k) in zip(req, rows):
             valid = 0 <= c < n
-            ctx.count(("rc", gt, c, tag), valid, f"{hb}rowcol/{tag}/" + ("valid" if valid else "invalid"))
+            ctx.count(("rc", self.gt, c, tag), valid, f"{self.hb}rowcol/{tag}/" + ("valid" if valid else "invalid"))
             if valid and (r, k) != divmod(c, ncols):
                 ctx.finding("cell2rowcol/wrong_rowcol", "cell2rowcol does not return (cell div ncols, cell mod ncols)",
                             {**case, "cell": c, "cells": req[:400], "got": [r, k], "expected": list(divmod(c, ncols))})
@@ -357,23 +373,22 @@ def run_geometry(ctx, st, nrows, ncols, xll, yll, csz, cells, invalid, pts, orig
         return rc
 
     # ---- cell2coord
-    centre_ok = {}   # cell -> (x, y) already verified against the exact centre
-
-    def check_c2c(req, tag="base", scalar=False, exact_model=False):
-        xy = g.cell2coord(req[0] if scalar else req)
-        rows = xy.tolist()
-        case = {"geom": gd, "fn": "cell2coord", "request": tag}
+    def c2c(self, req, tag="base", scalar=False, arg=None, exact_model=False):
+        ctx, n, ex = self.ctx, self.n, self.ex
+        xy = self.g.cell2coord(req[0] if scalar else (req if arg is None else arg))
+        case = self.case("cell2coord", tag)
         if xy.shape != (len(req), 2):
             ctx.finding("cell2coord/shape", "cell2coord does not return one (x, y) per requested cell", {**case, "shape": list(xy.shape)})
             return xy
-        st.add(f"c2c {gt} {C.ilist(req)}", pairs_tok(rows, C.f2h), case)
+        rows = xy.tolist()
+        self.st.add(f"c2c {self.gt} {C.ilist(req)}", pairs_tok(rows, C.f2h), case)
         if exact_model:
-            st.addq(f"c2cQ {gq} {C.ilist(req)}", ("centres", ex, req, rows, gd))
+            self.st.addq(f"c2cQ {self.gq} {C.ilist(req)}", ("centres", ex, req, rows, self.gd))
         for c, (x, y) in zip(req, rows):
             valid = 0 <= c < n
-            ctx.count(("c2c", gt, c, tag), valid, f"{hb}cell2coord/{tag}/" + ("valid" if valid else "invalid"))
+            ctx.count(("c2c", self.gt, c, tag), valid, f"{self.hb}cell2coord/{tag}/" + ("valid" if valid else "invalid"))
             if valid:
-                if centre_ok.get(c) == (x, y):
+                if self.centre_ok.get(c) == (x, y):
                     continue
                 cx, cy = ex.centre(c)
                 tx, ty = ex.tol(c)
@@ -381,33 +396,40 @@ def run_geometry(ctx, st, nrows, ncols, xll, yll, csz, cells, invalid, pts, orig
                     ctx.finding("cell2coord/not_centre", "cell2coord is not the centre of the cell footprint",
                                 {**case, "cell": c, "cells": req[:400], "got": [x, y], "expected": [float(cx), float(cy)]})
                 else:
-                    centre_ok[c] = (x, y)
+                    self.centre_ok[c] = (x, y)
             elif not (x != x and y != y):
                 ctx.finding("invalid_cell/not_flagged/cell2coord", "an invalid cell number is given coordinates",
                             {**case, "cell": c, "cells": req[:400], "got": [x, y]})
         return xy
 
-    # ---- coord2cell
-    point_ok = {}    # (x, y) -> (kind, expected, strip), exact classification done once per point
-
-    def check_points(req, tag="base", scalar=False, exact_model=False, sample=False):
-        arr = np.array([[p[0], p[1]] for p in req], dtype=np.float64)
-        res = g.coord2cell([req[0][0], req[0][1]] if scalar else arr)
-        got = res.tolist()
-        case0 = {"geom": gd, "fn": "coord2cell", "request": tag}
+    # ---- coord2cell: `req` is a list of (x, y, tag)
+    def points(self, req, tag="base", scalar=False, arg=None, exact_model=False, sample=False):
+        import numpy as np
+        ctx, n, ex = self.ctx, self.n, self.ex
+        if scalar:
+            arg = [req[0][0], req[0][1]]
+        elif arg is None:
+            arg = np.array([[p[0], p[1]] for p in req], dtype=np.float64).reshape(len(req), 2)
+        res = self.g.coord2cell(arg)
+        case0 = self.case("coord2cell", tag)
         if res.shape != (len(req),):
             ctx.finding("coord2cell/shape", "coord2cell does not return one cell per requested point", {**case0, "shape": list(res.shape)})
             return res
-        st.add(f"xy2c {gt} {pairs_tok([(p[0], p[1]) for p in req], C.f2h)}", C.ilist(got),
-               {**case0, "points": [[p[0], p[1]] for p in req]})
-        exact_pts, exact_got = [], []
+        got = res.tolist()
+        ptok = pairs_tok([(p[0], p[1]) for p in req], C.f2h)
+        plist = [[p[0], p[1]] for p in req]
+        self.st.add(f"xy2c {self.gt} {ptok}", C.ilist(got), {**case0, "points": plist})
+        if exact_model:
+            # the cast-first form imported by C05/C13/C16 must give the same cells as the kernel as written
+            self.st.add(f"xy2c_cast {self.gt} {ptok}", C.ilist(got), {**case0, "points": plist, "form": "cast-first"})
+        exact_pts, exact_got, quots, strips = [], [], [], []
         for (x, y, ptag), cell in zip(req, got):
             key = (C.f2h(x), C.f2h(y))
-            if key not in point_ok:
-                point_ok[key] = ex.classify(x, y)
-            kind, want, strip = point_ok[key]
-            ctx.count(("xy", gt, key, tag), kind in ("inside", "outside"), f"{hb}coord2cell/{tag}/{ptag}/{kind}",
-                      sample={"geom": gd, "point": [x, y], "cell": cell} if sample else None)
+            if key not in self.point_ok:
+                self.point_ok[key] = ex.classify(x, y)
+            kind, want, strip = self.point_ok[key]
+            ctx.count(("xy", self.gt, key, tag), kind in ("inside", "outside"), f"{self.hb}coord2cell/{tag}/{ptag}/{kind}",
+                      sample={"geom": self.gd, "point": [x, y], "cell": cell} if sample else None)
             case = {**case0, "point": [x, y], "got": cell, "expected": want, "kind": kind}
             if kind == "inside" and cell != want:
                 ctx.finding("coord2cell/inside_wrong_cell", "a point inside the footprint of a cell is not mapped to it", case)
@@ -422,47 +444,124 @@ def run_geometry(ctx, st, nrows, ncols, xll, yll, csz, cells, invalid, pts, orig
             if exact_model and kind in ("inside", "outside"):
                 exact_pts.append((F(x), F(y)))
                 exact_got.append(cell)
+                quots.append((x, y))
+                if strip:
+                    strips.append((x, y, cell))
+        if strips:
+            # the pinned (truncating) kernel model on the left/bottom strip: theorems coord2cellTrunc_*_strip say it
+            # returns a cell there; the code (fixed) must not follow it. Counted, never an alarm by itself.
+            self.st.addq(f"xy2c_trunc {self.gt} {pairs_tok([(p[0], p[1]) for p in strips], C.f2h)}", ("trunc", [p[2] for p in strips]))
         if exact_pts:
-            st.addq(f"xy2cQ {gq} {pairs_tok(exact_pts, C.rat)}", ("cells", exact_got, gd, exact_pts))
+            self.st.addq(f"xy2cQ {self.gq} {pairs_tok(exact_pts, C.rat)}", ("cells", exact_got, self.gd, exact_pts))
+            # hypothesis of cellOfQuot_{inside,outside}_of_approx: the double evaluation of the two quotients is
+            # within the margin (in cell sizes) of the exact quotients; the model's quotients are the ones checked
+            qf = [((x - self.xll) / self.csz, (y - self.yll) / self.csz) for x, y in quots]
+            self.st.add(f"quot {self.gt} {pairs_tok(quots, C.f2h)}", pairs_tok(qf, C.f2h), {**case0, "what": "quotients"})
+            for (x, y), (qx, qy) in zip(quots, qf):
+                worst = F(0)
+                for v, q0, lo in ((x, qx, ex.xll), (y, qy, ex.yll)):
+                    qe = (F(v) - lo) / ex.csz
+                    if abs(qe) > 2 * 10 ** 6 or not math.isfinite(q0):
+                        ctx.hist["approx/far_point_not_measured"] = ctx.hist.get("approx/far_point_not_measured", 0) + 1
+                        continue
+                    worst = max(worst, abs(F(q0) - qe))
+                ctx.extra["max_quotient_error_in_cell_sizes"] = max(ctx.extra.get("max_quotient_error_in_cell_sizes", 0.0), float(worst))
+                if worst > MARGIN:
+                    ctx.disagree("C07: the double evaluation of (x-xll)/csz is further than 1e-9 cell sizes from the exact quotient "
+                                 "(hypothesis of the robustness theorems not met inside the conditioning region)",
+                                 {**case0, "point": [x, y], "error": float(worst)})
         return res
 
-    check_rowcol(allcells)
-    xy = check_c2c(allcells, exact_model=True)
+    # ---- neighbours of one cell -> canonical reply ("err:badCell" or list) and the array as returned
+    def nb(self, c, count=True):
+        ctx, n = self.ctx, self.n
+        arr = None
+        try:
+            arr = self.g.neighbours(c)
+            r = [int(v) for v in arr]
+            if arr.shape != (9,):
+                ctx.finding("neighbours/shape", "neighbours does not return 9 entries", {**self.case("neighbours", "base"), "cell": c})
+        except ValueError as e:
+            r = "err:badCell" if "c_hydrodiy_gis.neighbours returns" in str(e) else "err:other:" + str(e)
+        valid = 0 <= c < n
+        if count:
+            ctx.count(("nb", self.gt, c), valid, self.hb + ("neighbours/valid" if valid else "neighbours/invalid"))
+        case = {**self.case("neighbours", "base"), "cell": c}
+        if valid:
+            want = expected_neighbours(self.nrows, self.ncols, c)
+            if r != want:
+                ctx.finding("neighbours/wrong_entry", "neighbour vector differs from the (row, col) neighbour table",
+                            {**case, "got": r, "expected": want})
+        elif not isinstance(r, str):
+            ctx.finding("invalid_cell/not_flagged/neighbours", "an invalid cell number is given neighbours", {**case, "got": r})
+        return r, arr
+
+    def nb_model(self, cells, reps):
+        self.st.add(f"nb {self.nrows} {self.ncols} {C.ilist(cells)}",
+                    ";".join(r if isinstance(r, str) else "ok:" + C.ilist(r) for r in reps), self.case("neighbours", "base"))
+
+    # ---- axes -> the arrays as returned
+    def axes(self, address=True):
+        import numpy as np
+        ctx, ex, n, nrows, ncols, g, gd = self.ctx, self.ex, self.n, self.nrows, self.ncols, self.g, self.gd
+        xva, yva = g.xvalues, g.yvalues
+        xv, yv = xva.tolist(), yva.tolist()
+        xl, yl = g.xlim, g.ylim
+        lims = [float(xl[0]), float(xl[1]), float(yl[0]), float(yl[1])]
+        self.st.add(f"axes {self.gt}", f"{C.flist(xv)} {C.flist(yv)} {C.flist(lims)}", self.case("axes", "base"))
+        ctx.count(("axes", self.gt), True, self.hb + "axes")
+        okx = len(xv) == ncols and all(math.isfinite(v) and abs(F(v) - ex.centre(j)[0]) <= ex.tol(j)[0] for j, v in enumerate(xv))
+        oky = len(yv) == nrows and all(math.isfinite(v) and abs(F(v) - ex.centre(i * ncols)[1]) <= ex.tol(i * ncols)[1] for i, v in enumerate(yv))
+        if not okx or any(b <= a for a, b in zip(xv, xv[1:])):
+            ctx.finding("axes/xvalues", "xvalues are not the increasing column centres", {**self.case("axes", "base"), "got": xv[:5]})
+        if not oky or any(b >= a for a, b in zip(yv, yv[1:])):
+            ctx.finding("axes/yvalues", "yvalues are not the decreasing row centres", {**self.case("axes", "base"), "got": yv[:5]})
+        if address and okx and oky and n <= 4 * MAXCELLS:
+            grid_pts = np.array([[x, y] for y in yv for x in xv])
+            if g.coord2cell(grid_pts).tolist() != list(range(n)):
+                ctx.finding("axes/address", "(xvalues[j], yvalues[i]) is not mapped to cell i*ncols+j", self.case("axes", "base"))
+        wl = [ex.xll, ex.xll + ncols * ex.csz, ex.yll, ex.yll + nrows * ex.csz]
+        tl = [0, ex.tol(ncols - 1)[0], 0, ex.tol(0)[1]]
+        if any(not math.isfinite(a) or abs(F(a) - b) > t for a, b, t in zip(lims, wl, tl)):
+            ctx.finding("axes/lims", "xlim/ylim are not the extent of the grid", {**self.case("axes", "base"), "got": lims})
+        return xva, yva
+
+
+def run_geometry(ctx, st, nrows, ncols, xll, yll, csz, cells, invalid, pts, origin="gen", history=None, rng=None,
+                 requests=()):
+    """one geometry: base requests for every entry point, other request shapes, axes, cross-check"""
+    import numpy as np
+    from hydrodiy.gis.grid import Grid
+    gd = {"nrows": nrows, "ncols": ncols, "xll": xll, "yll": yll, "csz": csz}
+    if history:
+        gd["history"] = history
+    g = build_grid(gd)
+    hb = "history/" if history else ""
+    ck = Checker(ctx, st, g, gd, hb)
+    n = nrows * ncols
+    allcells = list(cells) + list(invalid)
+
+    ck.rowcol(allcells)
+    xy = ck.c2c(allcells, exact_model=True)
     # round trip on the real code
     if xy.shape == (len(allcells), 2) and cells:
         back = g.coord2cell(xy[:len(cells)]).tolist()
         for c, b in zip(cells, back):
-            ctx.count(("rt", gt, c), True, hb + "roundtrip")
+            ctx.count(("rt", ck.gt, c), True, hb + "roundtrip")
             if b != c:
                 ctx.finding("cell2coord/roundtrip", "coord2cell(cell2coord(c)) differs from c",
                             {"geom": gd, "cell": c, "got": b})
 
     # ---- neighbours
-    nbs, reps = {}, []
-    held = {}   # the arrays as returned, kept alive: an answer must not change when other cells are queried later
+    nbs, held = {}, {}   # held: the arrays as returned, kept alive: an answer must not change when other cells are queried
 
-    def nb_of(c):
+    def nb_of(c, count=False):
         if c not in nbs:
-            try:
-                held[c] = g.neighbours(c)
-                nbs[c] = [int(v) for v in held[c]]
-            except ValueError as e:
-                nbs[c] = "err:badCell" if "c_hydrodiy_gis.neighbours returns" in str(e) else "err:other:" + str(e)
+            nbs[c], arr = ck.nb(c, count=count)
+            if arr is not None:
+                held[c] = arr
         return nbs[c]
-    for c in allcells:
-        r = nb_of(c)
-        valid = 0 <= c < n
-        reps.append(r if isinstance(r, str) else "ok:" + C.ilist(r))
-        ctx.count(("nb", gt, c), valid, hb + ("neighbours/valid" if valid else "neighbours/invalid"))
-        if valid:
-            want = expected_neighbours(nrows, ncols, c)
-            if r != want:
-                ctx.finding("neighbours/wrong_entry", "neighbour vector differs from the (row, col) neighbour table",
-                            {"geom": gd, "cell": c, "got": r, "expected": want})
-        elif not isinstance(r, str):
-            ctx.finding("invalid_cell/not_flagged/neighbours", "an invalid cell number is given neighbours",
-                        {"geom": gd, "cell": c, "got": r})
-    st.add(f"nb {nrows} {ncols} {C.ilist(allcells)}", ";".join(reps), {"geom": gd, "fn": "neighbours"})
+    ck.nb_model(allcells, [nb_of(c, count=True) for c in allcells])
     for c, arr in held.items():
         if [int(v) for v in arr] != nbs[c]:
             ctx.finding("neighbours/answer_changed_by_later_call", "the array returned by neighbours(c) changed after querying other cells",
@@ -482,47 +581,45 @@ def run_geometry(ctx, st, nrows, ncols, xll, yll, csz, cells, invalid, pts, orig
 
     # ---- coord2cell
     if pts:
-        check_points(pts, exact_model=True, sample=(origin == "gen"))
+        ck.points(pts, exact_model=True, sample=(origin == "gen"))
 
     # ---- recorded requests (corpus / replay), as they were: order, repeats and length matter
     for tag, req in requests:
-        check_rowcol(req, tag, scalar=(tag == "scalar"))
-        check_c2c(req, tag, scalar=(tag == "scalar"))
+        ck.rowcol(req, tag, scalar=(tag == "scalar"))
+        ck.c2c(req, tag, scalar=(tag == "scalar"))
 
     # ---- other request shapes: length n, n-1, n+1, 1, 2 with arbitrary content; bare scalars
     if rng is not None and n >= 1:
         for tag, req in gen_cell_requests(rng, n, cells, invalid):
-            check_rowcol(req, tag)
-            check_c2c(req, tag)
+            ck.rowcol(req, tag)
+            ck.c2c(req, tag)
         for c in [0, n - 1, -1, n, rng.randrange(n), rng.choice(invalid)]:
-            check_rowcol([c], "scalar", scalar=True)
-            check_c2c([c], "scalar", scalar=True)
+            ck.rowcol([c], "scalar", scalar=True)
+            ck.c2c([c], "scalar", scalar=True)
         if pts:
             for tag, req in gen_point_requests(rng, n, pts):
-                check_points(req, tag)
+                ck.points(req, tag)
             for _ in range(4):
-                check_points([rng.choice(pts)], "scalar", scalar=True)
+                ck.points([rng.choice(pts)], "scalar", scalar=True)
+        # cell numbers no int64 can hold: numpy either refuses them or wraps them to a negative number; in no case
+        # may such a number be given a cell (the property's "flagged (-1, NaN or an error)")
+        for big in ([2 ** 63], [-(2 ** 63) - 1], [2 ** 64 + rng.randrange(n)], [2 ** 70], [0, 2 ** 64 + 1], [2 ** 63 + rng.randrange(n), 0]):
+            for fn in ("cell2rowcol", "cell2coord", "neighbours"):
+                ctx.count(("big", ck.gt, fn, str(big)), False, hb + "beyond_int64/" + fn)
+                try:
+                    with warnings.catch_warnings():
+                        warnings.simplefilter("ignore")
+                        out = getattr(g, fn)(max(big, key=abs) if fn == "neighbours" else big)
+                except (OverflowError, ValueError, TypeError):
+                    continue
+                rows = np.asarray(out, dtype=np.float64).reshape(-1, 2) if fn != "neighbours" else None
+                row = rows[[i for i, b in enumerate(big) if abs(b) >= 2 ** 63][0]] if rows is not None and len(rows) == len(big) else [0.0]
+                if fn == "neighbours" or not (all(v == -1 for v in row) or all(v != v for v in row)):
+                    ctx.finding("invalid_cell/not_flagged/" + fn, "a number beyond int64 is not flagged as an invalid cell number",
+                                {"geom": gd, "fn": fn, "cells": [str(b) for b in big], "got": np.asarray(out).tolist()})
 
     # ---- axes
-    xv, yv = g.xvalues.tolist(), g.yvalues.tolist()
-    xl, yl = g.xlim, g.ylim
-    st.add(f"axes {gt}", f"{C.flist(xv)} {C.flist(yv)} {C.flist([xl[0], xl[1], yl[0], yl[1]])}", {"geom": gd, "fn": "axes"})
-    ctx.count(("axes", gt), True, hb + "axes")
-    okx = len(xv) == ncols and all(math.isfinite(v) and abs(F(v) - ex.centre(j)[0]) <= ex.tol(j)[0] for j, v in enumerate(xv))
-    oky = len(yv) == nrows and all(math.isfinite(v) and abs(F(v) - ex.centre(i * ncols)[1]) <= ex.tol(i * ncols)[1] for i, v in enumerate(yv))
-    if not okx or any(b <= a for a, b in zip(xv, xv[1:])):
-        ctx.finding("axes/xvalues", "xvalues are not the increasing column centres", {"geom": gd, "got": xv[:5]})
-    if not oky or any(b >= a for a, b in zip(yv, yv[1:])):
-        ctx.finding("axes/yvalues", "yvalues are not the decreasing row centres", {"geom": gd, "got": yv[:5]})
-    if okx and oky and n <= 4 * MAXCELLS:
-        grid_pts = np.array([[x, y] for y in yv for x in xv])
-        if g.coord2cell(grid_pts).tolist() != list(range(n)):
-            ctx.finding("axes/address", "(xvalues[j], yvalues[i]) is not mapped to cell i*ncols+j", {"geom": gd})
-    lims = [float(xl[0]), float(xl[1]), float(yl[0]), float(yl[1])]
-    wl = [ex.xll, ex.xll + ncols * ex.csz, ex.yll, ex.yll + nrows * ex.csz]
-    tl = [0, ex.tol(ncols - 1)[0], 0, ex.tol(0)[1]]
-    if any(not math.isfinite(a) or abs(F(a) - b) > t for a, b, t in zip(lims, wl, tl)):
-        ctx.finding("axes/lims", "xlim/ylim are not the extent of the grid", {"geom": gd, "got": lims})
+    ck.axes()
 
     # ---- a grid reached through a history must answer like a freshly constructed grid of the same geometry
     if history:
@@ -533,6 +630,7 @@ def run_geometry(ctx, st, nrows, ncols, xll, yll, csz, cells, invalid, pts, orig
             ctx.finding("history/to_dict_from_dict", "a grid with re-assigned geometry cannot be rebuilt from its dictionary",
                         {"geom": gd, "error": repr(e)})
         arr = np.array([[p[0], p[1]] for p in pts], dtype=np.float64) if pts else np.zeros((0, 2))
+
         def same(call):
             """both grids give the same answer (an exception is an answer too)"""
             res = []
@@ -546,7 +644,7 @@ def run_geometry(ctx, st, nrows, ncols, xll, yll, csz, cells, invalid, pts, orig
                 return isinstance(a, str) and isinstance(b, str) and a == b
             return a.shape == b.shape and np.array_equal(a, b, equal_nan=True)
         for f in fresh:
-            ctx.count(("fresh", gt, f.name), True, "history/fresh_grid_cross_check")
+            ctx.count(("fresh", ck.gt, f.name), True, "history/fresh_grid_cross_check")
             diffs = []
             if not same(lambda gr: gr.same_geometry(f) and f.same_geometry(gr)) or not bool(g.same_geometry(f)):
                 diffs.append("same_geometry")
@@ -564,6 +662,159 @@ def run_geometry(ctx, st, nrows, ncols, xll, yll, csz, cells, invalid, pts, orig
                 ctx.finding("history/differs_from_fresh_grid",
                             "after re-assigning geometry attributes a grid answers differently from a freshly constructed grid "
                             "with the same geometry (bit-identical inputs)", {"geom": gd, "functions": diffs})
+
+
+# ---------------------------------------------------------------------------------------------
+# call histories on ONE grid object: call -> (edit the returned array | edit the input array | re-assign an
+# attribute | other arguments | clone / deepcopy / pickle) -> call again; every answer is checked against the
+# geometry and the argument content of that moment
+ATTR = {"nrows": "nrows", "ncols": "ncols", "xll": "xllcorner", "yll": "yllcorner", "csz": "cellsize"}
+
+
+def gen_call(rng, geo, fn=None, length=None):
+    """one call op for the geometry `geo` (dict nrows ncols xll yll csz)"""
+    n = geo["nrows"] * geo["ncols"]
+    fn = fn or rng.choice(["rowcol", "c2c", "xy", "xy", "nb", "axes"])
+    if fn in ("rowcol", "c2c"):
+        L = length or rng.choice([1, 2, n, n, max(1, n - 1), n + 1, rng.randint(1, 12)])
+        bad = [-1, n, n + 1, -n - 1, 2 * n + 3]
+        cells = [rng.choice(bad) if rng.random() < 0.25 else rng.randrange(n) for _ in range(L)]
+        return {"op": fn, "cells": cells, "as": rng.choice(["array", "array", "list", "scalar"] if L == 1 else ["array", "array", "list"])}
+    if fn == "xy":
+        L = length or rng.choice([1, 2, n, max(1, n - 1), n + 1, rng.randint(1, 12)])
+        pool = gen_points(rng, geo["nrows"], geo["ncols"], geo["xll"], geo["yll"], geo["csz"], list(range(n)), 6, 8)
+        pts = [list(rng.choice(pool)[:2]) for _ in range(L)]
+        return {"op": "xy", "pts": pts, "as": rng.choice(["array", "array", "list", "scalar"] if L == 1 else ["array", "array", "list"])}
+    if fn == "nb":
+        return {"op": "nb", "cell": rng.choice([rng.randrange(n), rng.randrange(n), -1, n])}
+    return {"op": "axes"}
+
+
+def gen_set(rng, geo):
+    """re-assignments, equal-size ones included (same number of cells, same lengths of every request)"""
+    r = rng.random()
+    nr, nc, csz = geo["nrows"], geo["ncols"], geo["csz"]
+    if r < 0.2 and nr != nc:
+        return [["nrows", nc], ["ncols", nr]]                     # transpose: ncells unchanged
+    if r < 0.3:
+        divs = [d for d in range(1, nr * nc + 1) if (nr * nc) % d == 0 and d != nc]
+        if divs:
+            d = rng.choice(divs)
+            return [["ncols", d], ["nrows", nr * nc // d]]         # another factorisation of ncells
+    if r < 0.5:
+        return [[rng.choice(["xll", "yll"]), geo[rng.choice(["xll", "yll"])] + csz * rng.choice([-2.0, 1.0, 0.5, -0.25, 37.0])]]
+    if r < 0.65:
+        return [["csz", csz * rng.choice([2.0, 0.5, 3.0, 0.1])]]
+    if r < 0.8:
+        return [[rng.choice(["nrows", "ncols"]), rng.randint(1, 6)]]
+    return [["xll", gen_origin(rng, csz)], ["yll", gen_origin(rng, csz)]]
+
+
+def gen_ops(rng):
+    nrows, ncols = rng.choice([(1, 1), (1, 2), (2, 1), (2, 2), (2, 3), (3, 2), (1, 5), (4, 1), (3, 4), (rng.randint(1, 6), rng.randint(1, 6))])
+    csz = gen_csz(rng)
+    geo = {"nrows": nrows, "ncols": ncols, "xll": gen_origin(rng, csz), "yll": gen_origin(rng, csz), "csz": csz}
+    init = dict(geo)
+    first = gen_call(rng, geo)
+    ops = [first]
+    last = first
+    for _ in range(rng.randint(1, 3)):
+        kind = rng.choice(["edit_output", "edit_input", "set", "set", "clone", "other_args"])
+        if kind == "edit_output":
+            ops.append({"op": "edit_output", "fill": rng.choice([-7, 0, 12345])})
+            ops.append({"op": "recall"} if rng.random() < 0.7 else gen_call(rng, geo))
+        elif kind == "edit_input" and last["op"] in ("rowcol", "c2c", "xy") and last["as"] == "array":
+            new = gen_call(rng, geo, fn=last["op"], length=len(last.get("cells", last.get("pts"))))
+            ops.append({"op": "edit_input", **{k: new[k] for k in ("cells", "pts") if k in new}})
+            ops.append({"op": "recall"})
+        elif kind == "set":
+            for attr, val in gen_set(rng, geo):
+                ops.append({"op": "set", "attr": attr, "value": val, "numpy": rng.random() < 0.3})
+                geo[attr] = val
+            ops.append({"op": "recall"} if rng.random() < 0.5 else gen_call(rng, geo))
+        elif kind == "clone":
+            ops.append({"op": "clone", "how": rng.choice(["clone", "deepcopy", "pickle"])})
+            ops.append({"op": "recall"} if rng.random() < 0.5 else gen_call(rng, geo))
+        else:
+            L = len(last.get("cells", last.get("pts", [0])))
+            ops.append(gen_call(rng, geo, fn=last["op"], length=L if last["op"] in ("rowcol", "c2c", "xy") else None))
+        calls = [o for o in ops if o["op"] in ("rowcol", "c2c", "xy", "nb", "axes")]
+        last = calls[-1]
+    return {"initial": init, "ops": ops}
+
+
+def run_history(ctx, st, hist):
+    import copy
+    import pickle
+    import numpy as np
+    from hydrodiy.gis.grid import Grid
+    geo = dict(hist["initial"])
+    g = Grid("c07h", ncols=geo["ncols"], nrows=geo["nrows"], cellsize=geo["csz"], xllcorner=geo["xll"], yllcorner=geo["yll"])
+    held = []      # [array as returned, snapshot, step] : earlier answers must not change later
+    last = None    # (op name, argument object, "as")
+
+    def checker(step):
+        return Checker(ctx, st, g, dict(geo), "calls/", extra={"history_ops": hist, "step": step})
+
+    def call(ck, op, arg, how):
+        outs = []
+        if op in ("rowcol", "c2c"):
+            req = [int(v) for v in (arg.tolist() if isinstance(arg, np.ndarray) else arg)]
+            fn = ck.rowcol if op == "rowcol" else ck.c2c
+            outs.append(fn(req, "hist", scalar=(how == "scalar"), arg=arg))
+        elif op == "xy":
+            rows = arg.tolist() if isinstance(arg, np.ndarray) else arg
+            req = [(float(p[0]), float(p[1]), "hist") for p in rows]
+            outs.append(ck.points(req, "hist", scalar=(how == "scalar"), arg=None if how == "scalar" else arg))
+        elif op == "nb":
+            r, arr = ck.nb(arg)
+            ck.nb_model([arg], [r])
+            if arr is not None:
+                outs.append(arr)
+        else:
+            outs += list(ck.axes(address=False))
+        return outs
+
+    for step, o in enumerate(hist["ops"]):
+        op = o["op"]
+        ctx.count(("hist", id(hist), step), False, "calls/op/" + op)
+        if op in ("rowcol", "c2c", "xy", "nb", "axes"):
+            if op in ("rowcol", "c2c"):
+                arg = np.array(o["cells"], dtype=np.int64) if o["as"] == "array" else list(o["cells"])
+            elif op == "xy":
+                arg = np.array(o["pts"], dtype=np.float64).reshape(-1, 2) if o["as"] == "array" else [list(p) for p in o["pts"]]
+            elif op == "nb":
+                arg = o["cell"]
+            else:
+                arg = None
+            last = (op, arg, o.get("as", "list"))
+            for arr in call(checker(step), op, arg, last[2]):
+                held.append([arr, np.array(arr, copy=True), step])
+        elif op == "recall" and last is not None:
+            for arr in call(checker(step), last[0], last[1], last[2]):
+                held.append([arr, np.array(arr, copy=True), step])
+        elif op == "edit_output" and held:
+            arr = held.pop()[0]
+            if arr.flags.writeable:
+                arr[...] = o["fill"]      # the caller owns what was returned; no later answer may depend on it
+        elif op == "edit_input" and last is not None and isinstance(last[1], np.ndarray):
+            new = o.get("cells", o.get("pts"))
+            last[1][...] = np.array(new, dtype=last[1].dtype).reshape(last[1].shape)
+        elif op == "set":
+            val = o["value"]
+            if o.get("numpy"):
+                val = np.int64(val) if o["attr"] in ("nrows", "ncols") else np.float64(val)
+            setattr(g, ATTR[o["attr"]], val)
+            geo[o["attr"]] = o["value"]
+        elif op == "clone":
+            g = g.clone() if o["how"] == "clone" else copy.deepcopy(g) if o["how"] == "deepcopy" else pickle.loads(pickle.dumps(g))
+        for arr, snap, at in held:
+            if not np.array_equal(arr, snap, equal_nan=True):
+                ctx.finding("history/answer_changed_later", "an array returned by an earlier call changed during later calls",
+                            {"history_ops": hist, "returned_at_step": at, "changed_by_step": step,
+                             "first": snap.tolist()[:20], "now": arr.tolist()[:20]})
+                held[:] = [h for h in held if h[0] is not arr]
+                break
 
 
 class Stream:
@@ -591,13 +842,16 @@ def body(ctx):
 
     # ---- replay of a recorded case / corpus first
     prior = []
-    if getattr(ctx, "replay", None) and isinstance(ctx.replay.get("case"), dict) and "geom" in ctx.replay["case"]:
+    if getattr(ctx, "replay", None) and isinstance(ctx.replay.get("case"), dict) and ("geom" in ctx.replay["case"] or "history_ops" in ctx.replay["case"]):
         prior.append(ctx.replay["case"])
     cdir = C.ROOT / "corpus" / PID
     if cdir.is_dir():
         for f in sorted(cdir.glob("*.json")):
             prior.append(json.loads(f.read_text()))
     for case in prior:
+        if "history_ops" in case:
+            run_history(ctx, st, case["history_ops"])
+            continue
         gd = case["geom"]
         pts = [(float(p[0]), float(p[1]), "corpus") for p in case.get("points", [])]
         if "point" in case:
@@ -646,6 +900,15 @@ def body(ctx):
                         {"geom": {"nrows": nrows, "ncols": ncols, "xll": xll, "yll": yll, "csz": csz, "history": history},
                          "error": repr(e)[:300]})
 
+    # ---- call histories on one grid object
+    for _ in range(ctx.scale(500, 5000)):
+        hist = gen_ops(rng)
+        try:
+            run_history(ctx, st, hist)
+        except (ValueError, TypeError, AssertionError, IndexError, OverflowError) as e:
+            ctx.finding("api/exception", "a geometry function raised on a request inside the property's domain",
+                        {"history_ops": hist, "error": repr(e)[:300]})
+
     # ---- correspondence: Float instance, bit-exact
     replies = ctx.lean.ask(st.reqs)
     for req, impl, rep, case in zip(st.reqs, st.impls, replies, st.cases):
@@ -663,6 +926,11 @@ def body(ctx):
     # ---- exact instance (the one the theorems are about) vs the code, inside the conditioning region
     qreplies = ctx.lean.ask(st.qreqs)
     for req, info, rep in zip(st.qreqs, st.qinfo, qreplies):
+        if info[0] == "trunc":
+            for a, b in zip(info[1], [int(t) for t in C.parse_list(rep)]):
+                k = "pinned_trunc_model/strip_point/" + ("model_gives_cell_code_gives_-1" if (b != -1 and a == -1) else "other")
+                ctx.hist[k] = ctx.hist.get(k, 0) + 1
+            continue
         if info[0] == "cells":
             _, got, gd, pts = info
             model = [int(t) for t in C.parse_list(rep)]
